@@ -402,6 +402,12 @@ func (fsm *storeFSM) applyCopyShardOwnerCommand(cmd *internal.Command) interface
 
 	// Copy data and update.
 	other := fsm.data.Clone()
+	// The node may have been removed between the validation done by the
+	// proposer and the moment the command is applied; a shard must never
+	// be owned by a node that is not a data node of the cluster.
+	if other.DataNode(v.GetNodeID()) == nil {
+		return ErrNodeNotFound
+	}
 	other.CopyShardOwner(v.GetID(), v.GetNodeID())
 	fsm.data = other
 
